@@ -50,6 +50,9 @@ pub enum Mutation {
 	AddZeroValueOutput { seed: [u8; 32] },
 	/// signature recomputed by an attacker who does not know the replier's key, over a slate with another fee
 	PartSigFlip(u8),
+	/// only the recipient's payment-proof signature is damaged (applicable when the send asked for a proof): every
+	/// transaction-level check still passes, the refusal comes from the proof check alone
+	PaymentProofSigFlip(u8),
 }
 
 #[derive(Clone, Debug, Serialize, Deserialize)]
@@ -95,6 +98,7 @@ fn mutation_strategy() -> BoxedStrategy<Mutation> {
 		1 => (b32(), 1u64..100_000_000_000).prop_map(|(seed, value)| Mutation::AddInput { seed, value }),
 		3 => b32().prop_map(|seed| Mutation::AddZeroValueOutput { seed }),
 		2 => any::<u8>().prop_map(Mutation::PartSigFlip),
+		3 => any::<u8>().prop_map(Mutation::PaymentProofSigFlip),
 	]
 	.boxed()
 }
@@ -311,6 +315,17 @@ fn mutate(reply: &mut Slate, m: &Mutation, other_pending: Option<uuid::Uuid>) ->
 			}
 			None => return false,
 		},
+		Mutation::PaymentProofSigFlip(b) => match reply.payment_proof.as_mut().and_then(|p| p.receiver_signature.as_mut()) {
+			Some(sig) => {
+				let mut raw = sig.to_bytes();
+				raw[(*b as usize / 8) % 64] ^= 1 << (*b % 8);
+				match ed25519_dalek::Signature::from_bytes(&raw) {
+					Ok(s2) => *sig = s2,
+					Err(_) => return false,
+				}
+			}
+			None => return false,
+		},
 	}
 	true
 }
@@ -412,8 +427,13 @@ impl C02 {
 		let kc = truth::keychain_from_phrase(&sim.w(w).phrase)?;
 		let mut args = c.args.clone();
 		args.late_lock = c.flow == 1;
-		if c.flow != 0 {
+		if c.flow >= 2 {
 			args.proof = false;
+		}
+		if let Mutation::PaymentProofSigFlip(_) = c.mutation {
+			if c.flow <= 1 {
+				args.proof = true;
+			}
 		}
 		if c.flow == 1 && c.retry_honest {
 			// a late-locked send that is retried after a refused reply must be able to select again if the wallet
